@@ -39,6 +39,16 @@ let handle kind a =
       Some (fmt_chunks (optimize_chunks (parse_chunks a.(1)) (n_of_dec a.(0))))
   | "addc" ->
       Some (fmt_chunks (List.fold_left add_chunk [] (parse_chunks a.(0))))
+  | "csil" ->
+      let ms = n_of_int (int_of_string a.(0)) and d = nat_of_int (int_of_string a.(1)) in
+      let recs = if a.(2) = "_" then [] else
+        List.map (fun r -> match split_on ':' r with
+          | [s; e; x; y] -> { r_rid = N0; r_s = n_of_dec s; r_e = n_of_dec e; r_a = n_of_dec x; r_b = n_of_dec y }
+          | _ -> failwith "rec") (split_on ',' a.(2)) in
+      let ix = build_ref ms d N0 recs in
+      let lm = reread_loffs ix.bins ix.loffs in
+      if lm = [] then Some "_" else
+      Some (String.concat "," (List.map (fun (id, v) -> dec_of_n id ^ "=" ^ dec_of_n v) lm))
   | "bai" ->
       (* args: unplaced ("-" | n) ; refs '/'-separated, each  bins|meta|intervals *)
       let opt s f = if s = "-" then None else Some (f s) in
